@@ -26,6 +26,7 @@ var yamlPool = []string{
 	"&a", "*a", "!t", "!!str x", "%", "%YAML", "@", "`", "'", "''", "\"", "\"\"", "'a'", "\"a\"", "[", "]", "{", "}", "[]", "{}", "[a]", "{a: b}", ",", "a,b",
 	"---", "...", "--- a", "?", "? a", " a", "a ", " ", "  ", "\t", "\ta", "a\t", "\n", "a\n", "\na", "a\nb", "a\n\nb", "a\r\nb", "\r", "a\rb",
 	"\u00e9", "\u65e5\u672c\u8a9e", "\U0001F600", "\x00", "\x01", "\x1f", "\x7f", "\u0080", "\u0085", "\u009f", "\u00a0", "\u2028", "\u2029", "\ufeff", "\ufeffa", "\ufffd",
+	"C:\\U0001F600", "\\U0001F600", "\\u00e9", "\\x41", "rate - 1e+06", "x: 3e+21\ny", "- 4e+06", "a\n- 1e+06", "k: 1e+06", "1e+06", "v: 1.0e+06", "a: 1\nb:\n- 2\n- x\n", "- a\n- - b\n", "\"q\": \"r\"\n",
 	"<<", "=", "<", ">>", "key: [unclosed", "line1\n  indented\nline3", strings.Repeat("long ", 30), "\\", "\\n", "a\\", "\"a\\\"", "\u00e9: \u00fc",
 }
 
@@ -60,9 +61,20 @@ func c16Value(t *rapid.T, depth int) val.V {
 		return gen.Chance(t, "bool", 50)
 	case r < 91:
 		return nil
-	case r < 96:
+	case r < 94:
 		// concatenations reach combinations the pool does not list
 		return gen.Pick(t, "p1", yamlPool) + gen.Pick(t, "p2", yamlPool)
+	case r < 96:
+		// the YAML text of another document as a string value
+		inner := []val.V{gen.Pick(t, "in1", c16Numbers), map[string]val.V{gen.Pick(t, "ink", yamlPool): gen.Pick(t, "in2", c16Numbers)}, gen.Pick(t, "in3", yamlPool)}
+		if gen.Chance(t, "jdYaml", 50) {
+			var out string
+			jdx.Guard(func() { out = jdx.Node(inner).Yaml() })
+			if out != "" {
+				return out
+			}
+		}
+		return ref.YAMLEmit(inner)
 	default:
 		if gen.Chance(t, "bigString", 10) {
 			if s, ok := gen.BigValue(t).(string); ok {
